@@ -21,9 +21,9 @@ EXTENDS Format
 Cases == JsonDeserialize(IOEnv.S6_CASES)
 
 VARIABLE ci
-CInit == ci \in 1..Len(Cases)
-CNext == UNCHANGED ci
-CSpec == CInit /\ [][CNext]_ci
+JInit == ci \in 1..Len(Cases)
+JNext == UNCHANGED ci
+JSpec == JInit /\ [][JNext]_ci
 
 Parsed(c) ==
   CASE c.lang = "C" /\ c.mode = "expr"   -> ParseCExpr(c.toks)
